@@ -129,6 +129,7 @@ def plan(tier, seed):
     shards = []
     for first in NAMES:
         shards.append(("hist", first, D))
+    shards.append(("bypath",))
     pairs = PAIRS_QUICK if tier == "quick" else PAIRS_THOROUGH
     K = 8
     for a, b in pairs:
@@ -208,8 +209,67 @@ sys.exit(0 if got == base else 1)
 """
 
 
+BYPATH_SCRIPT = """{observe_src}
+import os, tempfile
+from pathlib import Path
+from chartparse.chart import Chart
+texts = {texts!r}   # equal byte length; written one after the other to ONE path with ONE modification time
+order = {order!r}
+d = tempfile.mkdtemp(); p = Path(d) / "notes.chart"
+bad = 0
+for k in order:
+    p.write_bytes(texts[k].encode("utf-8")); os.utime(p, ns=(10**18, 10**18))
+    got = observe(Chart.from_filepath(p)); want = observe(Chart.from_file(io.StringIO(texts[k])))
+    if got != want:
+        print("VIOLATED: text", k, "read by path after", order[:order.index(k)], "differs from its own parse"); bad = 1
+os.unlink(p); os.rmdir(d)
+sys.exit(bad)
+"""
+
+
+def _bypath(ctx):
+    return _bypath_orders(ctx, [o for n in (2, 3, 4) for o in itertools.product(range(4), repeat=n)])
+
+
+def _bypath_orders(ctx, orders):
+    """The by-path entry point sees the TEXT that is in the file now: one path, texts of equal byte length written
+    one after the other with the same modification time (cp -p, rsync -t, unzip), every order of 3 texts and
+    repetitions; each parse equals the parse of its own text."""
+    import os
+    import tempfile
+    from pathlib import Path
+
+    A = CORPUS["sus-a"][0]
+    texts = [A, A.replace("0 = N 0 3", "0 = N 2 3"), A.replace("lyric b", "lyric c"), A.replace("6 = B 90000", "6 = B 80000")]
+    assert len({len(t.encode()) for t in texts}) == 1
+    want = [impl.observe(impl.parse(t)) for t in texts]
+    d = tempfile.mkdtemp()
+    p = Path(d) / "notes.chart"
+    try:
+        for order in orders:
+            ctx.node()
+            ctx.case(("bypath", order), nontrivial=True, sample=lambda: dict(order=list(order)))
+            for sel in (None, [(impl.P.Instrument.GUITAR, impl.P.Difficulty.EXPERT)]):
+                for i, k in enumerate(order):
+                    p.write_bytes(texts[k].encode("utf-8"))
+                    os.utime(p, ns=(10**18, 10**18))
+                    got = impl.observe(impl.P.Chart.from_filepath(p) if sel is None else impl.P.Chart.from_filepath(p, want_tracks=sel))
+                    ctx.evaluations += 1
+                    if got != want[k]:
+                        from ..refmodel import diff
+
+                        ctx.violation("history-dependent", dict(kind="bypath", order=list(order[: i + 1])), "one path, texts of equal length and equal modification time written in the order %r: the by-path parse of text %d differs from the parse of that text: %s" % (list(order[: i + 1]), k, diff(got, want[k])), script=BYPATH_SCRIPT.format(observe_src=impl.OBSERVE_SRC, texts=texts, order=list(order[: i + 1])))
+                        return
+    finally:
+        if p.exists():
+            os.unlink(p)
+        os.rmdir(d)
+
+
 def run_shard(shard, ctx):
     kind = shard[0]
+    if kind == "bypath":
+        return _bypath(ctx)
     if kind == "hist":
         _, first, D = shard
         ctx.node()
@@ -354,6 +414,13 @@ def _sched_shard(shard):
 
 
 def replay(case):
+    if case.get("kind") == "bypath":
+        from ..core import Ctx
+        import time
+
+        c2 = Ctx(0, time.time() + 600)
+        _bypath_orders(c2, [tuple(case["order"])])
+        return c2.violations
     if case.get("kind") == "hist":
         plan_baselines(case["history"])
         res = in_fork(run_history, tuple(case["history"]))
